@@ -113,6 +113,47 @@ fn header_sweeps<V: Variant>(r: &mut Report, ctx: &Ctx) {
     );
 }
 
+fn binary_values<V: Variant>(r: &mut Report, ctx: &Ctx) {
+    let name = format!("strict-binary-values-{}", V::NAME);
+    if !ctx.want(&name) {
+        return;
+    }
+    r.section(
+        &name,
+        "every byte position x all 256 values x 4 backgrounds (no strict adjustment: header bytes take impossible values too) through the array and slice conversions: accepted iff the strict rule allows it, with an applicable error otherwise; the strict rule must look at the checksum and length bytes only (Q-ratio byte and body are free); non-trivial = rejected values",
+        &format!("{} values", V::SIZE * 4 * 256),
+        true,
+        |s| {
+            s.acc = par_for((V::SIZE * 4 * 256) as u64, 512, |idx, acc| {
+                let x = (idx % 256) as u8;
+                let bg = ((idx / 256) % 4) as usize;
+                let pos = (idx / 1024) as usize;
+                let mut b: Vec<u8> = match bg {
+                    0 => vec![0x00; V::SIZE],
+                    1 => vec![0xff; V::SIZE],
+                    2 => vec![0x5a; V::SIZE],
+                    _ => (0..V::SIZE).map(|i| (i * 37 + 11) as u8).collect(),
+                };
+                b[pos] = x;
+                acc.evals += 1;
+                acc.transitions += 2;
+                match judge_strict_binary::<V>(&b) {
+                    Ok(fp) => {
+                        acc.outcomes.insert(fp);
+                        if fp != 0 {
+                            acc.nontrivial += 1;
+                        }
+                        if idx % 9001 == 0 {
+                            acc.sample(idx, || json!({"variant": V::NAME, "bytes": hex(&b), "rejected": fp != 0}));
+                        }
+                    }
+                    Err(e) => acc.fail(idx, &name, e, json!({"kind": "header", "variant": V::NAME, "bytes": hex(&b)})),
+                }
+            });
+        },
+    );
+}
+
 fn generated<V: Variant>(st: Stream, top: u64, acc: &mut Acc, key: u64) {
     let mut g = V::new_gen();
     for n in 0..=top {
@@ -148,6 +189,11 @@ pub fn run(r: &mut Report, ctx: &Ctx) {
     header_sweeps::<VNormalLC>(r, ctx);
     header_sweeps::<VLong>(r, ctx);
     header_sweeps::<VLongLC>(r, ctx);
+    binary_values::<VShort>(r, ctx);
+    binary_values::<VNormal>(r, ctx);
+    binary_values::<VNormalLC>(r, ctx);
+    binary_values::<VLong>(r, ctx);
+    binary_values::<VLongLC>(r, ctx);
     if ctx.want("dev1") || ctx.want("lengths") || ctx.want("dev2") {
         crate::checks::c05::enumerate::<VShort>(r, ctx, "C15");
         crate::checks::c05::enumerate::<VNormal>(r, ctx, "C15");
